@@ -297,7 +297,7 @@ func (e *Eng) execBuiltin(fr *Frame, ins ssa.Instruction, b *ssa.Builtin, c *ssa
 		if isString(src.Typ) {
 			srcAt = sx("strat", src.T, "j")
 		} else {
-			srcAt = sel(sel(cur, sx("s_arr", src.T)), sx("+", sx("s_off", src.T), "j"))
+			srcAt = sel(sel(cur, sx("s_arr", src.T)), idxAt(sx("s_off", src.T), "j"))
 		}
 		e.sc.assume(fmt.Sprintf("(forall ((i Int)) (! (= (select %s i) (ite (and (<= %s i) (< i (+ %s %s))) (let ((j (- i %s))) %s) (select %s i))) :pattern ((select %s i))))",
 			newArr, sx("s_off", dst.T), sx("s_off", dst.T), n, sx("s_off", dst.T), srcAt, oldArr, newArr), "copy semantics")
@@ -364,7 +364,7 @@ func (e *Eng) execAppend(fr *Frame, ins ssa.Instruction, args []*Val, st *State,
 		if isString(t.Typ) {
 			return sx("strat", t.T, j)
 		}
-		return sel(sel(cur, sx("s_arr", t.T)), sx("+", sx("s_off", t.T), j))
+		return sel(sel(cur, sx("s_arr", t.T)), idxAt(sx("s_off", t.T), j))
 	}
 	// fresh array branch
 	ref := e.alloc(st, "append grow")
@@ -375,12 +375,12 @@ func (e *Eng) execAppend(fr *Frame, ins ssa.Instruction, args []*Val, st *State,
 	if t.KnownLen >= 0 && t.KnownLen <= 8 {
 		inPlaceArr = oldArr
 		grownArr = e.sc.havoc(name+"_grown", "(Array Int "+es+")")
-		e.sc.assume(fmt.Sprintf("(forall ((i Int)) (! (=> (and (<= 0 i) (< i %s)) (= (select %s i) (select %s (+ %s i)))) :pattern ((select %s i))))",
+		e.sc.assume(fmt.Sprintf("(forall ((i Int)) (! (=> (and (<= 0 i) (< i %s)) (= (select %s i) (select %s (at %s i)))) :pattern ((select %s i))))",
 			slen, grownArr, oldArr, sx("s_off", s.T), grownArr), "append: prefix copied")
 		ga := grownArr
 		for j := 0; j < t.KnownLen; j++ {
 			js := fmt.Sprint(j)
-			inPlaceArr = sto(inPlaceArr, sx("+", sx("s_off", s.T), slen, js), srcElem(js))
+			inPlaceArr = sto(inPlaceArr, idxAt(sx("s_off", s.T), sx("+", slen, js)), srcElem(js))
 			ga = sto(ga, sx("+", slen, js), srcElem(js))
 		}
 		grownArr = ga
@@ -390,7 +390,7 @@ func (e *Eng) execAppend(fr *Frame, ins ssa.Instruction, args []*Val, st *State,
 			ip, sx("s_off", s.T), slen, sx("s_off", s.T), n, sx("s_off", s.T), slen, srcElem("j"), oldArr, ip), "append in place")
 		inPlaceArr = ip
 		ga := e.sc.havoc(name+"_grown", "(Array Int "+es+")")
-		e.sc.assume(fmt.Sprintf("(forall ((i Int)) (! (=> (and (<= 0 i) (< i %s)) (= (select %s i) (ite (< i %s) (select %s (+ %s i)) (let ((j (- i %s))) %s)))) :pattern ((select %s i))))",
+		e.sc.assume(fmt.Sprintf("(forall ((i Int)) (! (=> (and (<= 0 i) (< i %s)) (= (select %s i) (ite (< i %s) (select %s (at %s i)) (let ((j (- i %s))) %s)))) :pattern ((select %s i))))",
 			n, ga, slen, oldArr, sx("s_off", s.T), slen, srcElem("j"), ga), "append grown")
 		grownArr = ga
 	}
@@ -676,6 +676,16 @@ func (e *Eng) checkProtectedRegionWrite(fr *Frame, st *State, region string, pos
 func (e *Eng) resolveRegionPattern(p string) []string {
 	p = strings.TrimSpace(p)
 	if strings.HasPrefix(p, "$") {
+		if p == "$nothing" {
+			return nil
+		}
+		gt, ok := e.spec.Ghosts[p]
+		if !ok {
+			e.errf("unknown ghost %s in region pattern", p)
+			return nil
+		}
+		_, srt := e.specType(gt)
+		e.regInit("G."+p, srt)
 		return []string{"G." + p}
 	}
 	if strings.HasPrefix(p, "elems ") {
@@ -717,7 +727,7 @@ func (e *Eng) resolveRegionPattern(p string) []string {
 		e.regInit(r, rs)
 		return []string{r}
 	}
-	if i := strings.LastIndex(p, "."); i > 0 && !strings.HasPrefix(p, "F.") && !strings.HasPrefix(p, "E.") && !strings.HasPrefix(p, "M") && !strings.HasPrefix(p, "G.") && !strings.HasPrefix(p, "C.") {
+	if i := strings.LastIndex(p, "."); i > 0 && !strings.HasPrefix(p, "F.") && !strings.HasPrefix(p, "E.") && !strings.HasPrefix(p, "MH.") && !strings.HasPrefix(p, "MV.") && !strings.HasPrefix(p, "ML.") && !strings.HasPrefix(p, "G.") && !strings.HasPrefix(p, "C.") {
 		tn, fn := p[:i], p[i+1:]
 		t := e.ld.typeOf(tn)
 		if t == nil || structOf(t) == nil {
